@@ -94,7 +94,7 @@ structure EnvB {α X : Type} (o : ElemsOps α) (cfg : MCfg) (k : MKey) (v : Elem
                (o.count g ≠ 1 → o.soleSingle g = none)
   /-- a fresh group holding the resident element one level deeper: `newSingleElementsWithElement` at the last level,
       `newHkeyElementsWithElement` (with the resident key's digest at that level) otherwise -/
-  newWith : ∀ lvl x g, lvl < 2^64 → o.newWith cfg lvl x = .ok g →
+  newWith : ∀ lvl x g, lvl < 2^64 → x.size < 2^32 → o.newWith cfg lvl x = .ok g →
     (if lvl = cfg.L then env.newSingleElementsWithElement (u64 lvl) (mei_cE x) = g
      else env.newHkeyElementsWithElement (u64 lvl) (u64 (x.key.dig lvl)) (.single (mei_cE x)) = g)
   -- the slab storage as the model sees it (allocation counter + effect log; no storage failures)
